@@ -16,6 +16,11 @@ def generate(tier, seed):
                 for writer in (0, 1):
                     for handle in (0, 1, 2):
                         cases.append("stress %d %d %d %d %d %d" % (th, cached, writer, handle, rnd.randrange(1 << 30), iters))
+    # pattern-heavy model (200 rules, 400 distinct keyMatch2 / keyMatch3 / regexMatch patterns), no writer: the exported matcher
+    # functions are called from many threads with more distinct patterns than a compiled-pattern cache would hold
+    for th in (2, 8, 16):
+        for cached in (0, 1):
+            cases.append("stressp %d %d %d %d" % (th, cached, rnd.randrange(1 << 30), max(60, iters // 12)))
     return {
         "cases": cases,
         "exhaustive": False,
@@ -29,4 +34,6 @@ def generate(tier, seed):
 
 def nontrivial(c, mo):
     t = c.split(" ")
+    if t[0] == "stressp":
+        return True
     return t[3] == "1" or t[4] != "0"
